@@ -12,6 +12,7 @@ from __future__ import annotations
 import ast
 from typing import Dict, List, Optional, Set, Tuple
 
+from ..cfg import CFG, normal_compare
 from ..model import AnalysisError, Func, dotted, own_nodes, unparse
 from ..util import assignments_to, calls, const_str, loop_binding, zip_partner
 from ..pipeline import ContextMap
@@ -160,6 +161,22 @@ def rule_e1(ctx, rule_id: str = "C07-E1") -> None:
         atom = loop.target.id
         key = _resolve_expr(f, tgt.slice)
         where = f.loc(s)
+        if isinstance(key, ast.Constant) and isinstance(key.value, str):
+            # a special case of the loop: constant key under `atomic number == n`
+            ecfg = CFG(f.node)
+            okc, why = False, "constant key %r is not guarded by a test of the atomic number" % key.value
+            for c, pol in ecfg.guards(ecfg.node_of(s)):
+                nc = normal_compare(c, pol)
+                if nc and nc[1] == "==":
+                    for a, b in ((nc[0], nc[2]), (nc[2], nc[0])):
+                        a = _resolve_expr(f, a)
+                        if isinstance(a, ast.Call) and isinstance(a.func, ast.Attribute) and a.func.attr == "GetAtomicNum" and isinstance(b, ast.Constant) and isinstance(b.value, int) and 1 <= b.value <= 118:
+                            okc = SYMBOLS[b.value - 1] == key.value
+                            why = "constant key %r under atomic number == %d (%s)" % (key.value, b.value, SYMBOLS[b.value - 1])
+            ctx.instance(rule_id, "decompose: key=%r (%s)" % (key.value, why), where, verdict="ok" if okc else "wrong-symbol")
+            if not okc:
+                ctx.finding(rule_id, "RSMIDecomposer.decompose:element-key", where, "composition key %r: %s" % (key.value, why))
+            continue
         verdict, detail = _injective(ctx, f, key, atom)
         ctx.instance(rule_id, "decompose: key=%s" % unparse(key)[:80], where, verdict=verdict, detail=detail)
         if verdict != "ok":
@@ -177,13 +194,13 @@ def _injective(ctx, f: Func, key: ast.AST, atom: str) -> Tuple[str, str]:
         return "ok", "symbol taken from the atom itself"
     table_expr, fallback, mode = None, None, None
     if isinstance(key, ast.Call) and isinstance(key.func, ast.Attribute) and key.func.attr == "get" and key.args:
-        idx = key.args[0]
+        idx = _resolve_expr(f, key.args[0])
         if isinstance(idx, ast.Call) and isinstance(idx.func, ast.Attribute) and idx.func.attr == "GetAtomicNum":
             table_expr = key.func.value
             fallback = key.args[1] if len(key.args) > 1 else ast.Constant(value=None)
             mode = "get"
     elif isinstance(key, ast.Subscript):
-        idx = key.slice
+        idx = _resolve_expr(f, key.slice)
         if isinstance(idx, ast.Call) and isinstance(idx.func, ast.Attribute) and idx.func.attr == "GetAtomicNum":
             table_expr = key.value
             mode = "index"
@@ -246,10 +263,10 @@ def _injective(ctx, f: Func, key: ast.AST, atom: str) -> Tuple[str, str]:
     return "constant-fallback", "fallback %s does not depend on the atom" % unparse(fb)
 
 
-def rule_e2(ctx) -> None:
+def rule_e2(ctx, rule_id: str = "C07-E2") -> None:
     f, _hops = locate_counting(ctx)
-    ctx.rule("C07-E2", "atoms counted are GetAtoms() of AddHs(MolFromSmiles(<whole side string>))", 1)
-    piecewise_findings(ctx, "C07-E2")
+    ctx.rule(rule_id, "atoms counted are GetAtoms() of AddHs(MolFromSmiles(<whole side string>))", 1)
+    piecewise_findings(ctx, rule_id)
     n_loops = 0
     for n in own_nodes(f.node):
         if isinstance(n, ast.For) and isinstance(n.iter, ast.Call) and isinstance(n.iter.func, ast.Attribute) and n.iter.func.attr == "GetAtoms":
@@ -272,15 +289,15 @@ def rule_e2(ctx) -> None:
                     why = "AddHs is not applied to MolFromSmiles(...) but to %s" % unparse(inner)[:60]
             else:
                 why = "atoms are taken from %s, which is not the result of AddHs(...)" % unparse(recv)[:60]
-            ctx.instance("C07-E2", "decompose: atom loop over %s" % unparse(n.iter)[:60], f.loc(n), ok=ok)
+            ctx.instance(rule_id, "decompose: atom loop over %s" % unparse(n.iter)[:60], f.loc(n), ok=ok)
             if not ok:
-                ctx.finding("C07-E2", "RSMIDecomposer.decompose:atom-loop", f.loc(n), "hydrogens may be left out of the composition: " + why)
+                ctx.finding(rule_id, "RSMIDecomposer.decompose:atom-loop", f.loc(n), "hydrogens may be left out of the composition: " + why)
     ctx.require(n_loops >= 1, "decompose has no counting loop over GetAtoms()")
 
 
-def rule_e3(ctx) -> str:
+def rule_e3(ctx, rule_id: str = "C07-E3") -> str:
     f, _hops = locate_counting(ctx)
-    ctx.rule("C07-E3", "net charge = GetFormalCharge(molecule) stored under the charge key used by all consumers", 2)
+    ctx.rule(rule_id, "net charge = GetFormalCharge(molecule) stored under the charge key used by all consumers", 2)
     key = None
     for n in own_nodes(f.node):
         if isinstance(n, ast.Assign) and len(n.targets) == 1 and isinstance(n.targets[0], ast.Subscript):
@@ -295,22 +312,30 @@ def rule_e3(ctx) -> str:
                     a = _resolve_expr(f, a.args[0])
                 if isinstance(a, ast.Call) and (dotted(a.func) or "").split(".")[-1] == "MolFromSmiles":
                     ok = True
-                ctx.instance("C07-E3", "decompose: %s" % unparse(n)[:70], f.loc(n), ok=ok, key=k)
+                ctx.instance(rule_id, "decompose: %s" % unparse(n)[:70], f.loc(n), ok=ok, key=k)
                 if not ok:
-                    ctx.finding("C07-E3", "RSMIDecomposer.decompose:charge-source", f.loc(n), "formal charge is not read from the parsed molecule")
+                    ctx.finding(rule_id, "RSMIDecomposer.decompose:charge-source", f.loc(n), "formal charge is not read from the parsed molecule")
                 key = k
     if key is None:
         # restructured code: accept a charge that is computed by GetFormalCharge in the
         # counting function and stored under a constant key in decompose itself
         root = ctx.prog.func(DECOMPOSE)
+        for loop in [n for n in own_nodes(f.node) if isinstance(n, ast.For) and isinstance(n.iter, ast.Call) and isinstance(n.iter.func, ast.Attribute) and n.iter.func.attr == "GetAtoms" and isinstance(n.target, ast.Name)]:
+            for a in [x for x in ast.walk(loop) if isinstance(x, ast.AugAssign) and isinstance(x.op, ast.Add) and isinstance(x.value, ast.Call) and isinstance(x.value.func, ast.Attribute) and x.value.func.attr == "GetFormalCharge" and isinstance(x.value.func.value, ast.Name) and x.value.func.value.id == loop.target.id]:
+                direct = a in loop.body
+                skipped = [x for st_ in loop.body for x in ast.walk(st_) if isinstance(x, (ast.Continue, ast.Break)) and x.lineno < a.lineno]
+                okl = direct and not skipped
+                ctx.instance(rule_id, "per-atom charge accumulation %s covers every atom of the loop (top level of the body: %s, continue/break before it: %d)" % (unparse(a), direct, len(skipped)), f.loc(a), ok=okl)
+                if not okl:
+                    ctx.finding(rule_id, "RSMIDecomposer.decompose:charge-accumulation-partial", f.loc(a), "the formal charge is summed atom by atom, but not for every atom (%s): the charge of the skipped atoms (e.g. [H+]) is lost" % ("a continue/break at line %d comes first" % skipped[0].lineno if skipped else "the statement is conditional"))
         has_call = any(isinstance(n, ast.Call) and (dotted(n.func) or "").split(".")[-1] == "GetFormalCharge" for g in (f, root) for n in own_nodes(g.node))
         stores = [const_str(n.targets[0].slice) for n in own_nodes(root.node) if isinstance(n, ast.Assign) and len(n.targets) == 1 and isinstance(n.targets[0], ast.Subscript) and const_str(n.targets[0].slice) and "charge" in unparse(n.value).lower()]
         if has_call and stores:
             key = stores[0]
-            ctx.instance("C07-E3", "decompose stores the accumulated charge under %r (GetFormalCharge in %s)" % (key, f.name), root.loc(), ok=True)
+            ctx.instance(rule_id, "decompose stores the accumulated charge under %r (GetFormalCharge in %s)" % (key, f.name), root.loc(), ok=True)
         else:
-            ctx.instance("C07-E3", "decompose: charge store", f.loc(), ok=False)
-            ctx.finding("C07-E3", "RSMIDecomposer.decompose:charge-store", f.loc(), "no store of GetFormalCharge(...) under a constant key found")
+            ctx.instance(rule_id, "decompose: charge store", f.loc(), ok=False)
+            ctx.finding(rule_id, "RSMIDecomposer.decompose:charge-store", f.loc(), "no store of GetFormalCharge(...) under a constant key found")
             key = "Q"
     consumers = [
         "synrbl.SynProcessor.rsmi_both_side_process.BothSideReact.__init__",
@@ -325,9 +350,9 @@ def rule_e3(ctx) -> str:
         g = ctx.prog.func(q)
         lits = {n.value for n in own_nodes(g.node) if isinstance(n, ast.Constant) and isinstance(n.value, str) and len(n.value) <= 3}
         ok = key in lits
-        ctx.instance("C07-E3", "consumer %s uses charge key %r" % (q.split(".", 2)[-1], key), g.loc(), ok=ok)
+        ctx.instance(rule_id, "consumer %s uses charge key %r" % (q.split(".", 2)[-1], key), g.loc(), ok=ok)
         if not ok:
-            ctx.finding("C07-E3", "%s:charge-key" % q.split("synrbl.", 1)[-1], g.loc(), "consumer never mentions the charge key %r that decompose writes (short literals seen: %s)" % (key, sorted(lits)))
+            ctx.finding(rule_id, "%s:charge-key" % q.split("synrbl.", 1)[-1], g.loc(), "consumer never mentions the charge key %r that decompose writes (short literals seen: %s)" % (key, sorted(lits)))
     return key
 
 
